@@ -1,6 +1,7 @@
 mod indexes;
 mod logs;
 mod reading_messages;
+mod recovery;
 mod segment;
 mod writing_messages;
 
